@@ -70,6 +70,11 @@ def run(ctx, rep):
         if b is None:
             r.missing("Context::" + ctor)
             continue
+        siblings = tuple("processor::Context::" + c for c in tab)
+        if common.needs_sroa(b, "processor::Context", siblings):
+            # the result is built in steps (a cloning helper plus field assignments, or a sibling constructor):
+            # bring it to the one-aggregate shape by inlining the sibling and scalar replacement of the result
+            b = common.sroa_ctor(lib, b, "processor::Context", siblings)
         aggs = [(bb, idx, rv) for bb, idx, place, rv, _ in b.assignments()
                 if rv["k"] == "agg" and rv.get("adt") == "processor::Context" and place["l"] in common.ret_locals(b)
                 and not place["p"]]
@@ -190,30 +195,45 @@ def run(ctx, rep):
 
 
 def _container_local(b, pr, operand, bb, idx):
-    """Follow moves / Rc::new back to the local that is mutated through &mut (has outparam atoms)."""
+    """Follow moves / Rc::new back to the local that is mutated through &mut (has outparam atoms). Definitions are
+    the ones that reach the point of use, so a field that is assigned twice (cloned by a helper, then replaced) is
+    followed through its last assignment."""
     place = operand.get("place")
     if not place:
         return None
     l = place["l"]
+    at = (bb, idx)
     seen = set()
     while l not in seen:
         seen.add(l)
         if pr.outparams.get(l):
             return l
-        sites = pr._def_sites(l)
+        try:
+            sites = pr.reaching(l, at[0], at[1])
+        except Exception:
+            sites = None
+        if not sites:
+            sites = pr._def_sites(l)
         nxt = None
+        nat = at
         for sbb, spos, kind, payload in sites:
             if kind == "assign":
                 rv = payload[1]
                 if rv["k"] == "use" and rv["op"].get("k") in ("move", "copy"):
                     nxt = rv["op"]["place"]["l"]
+                    nat = (sbb, spos)
+                elif rv["k"] == "ref" and all(x == "deref" for x in rv["place"]["p"]):
+                    nxt = rv["place"]["l"]      # `&x` handed to a sibling constructor that clones it
+                    nat = (sbb, spos)
             else:
                 c = b.call_at[sbb]
                 if pr._is_look_through(c) and c.args and c.args[0].get("k") in ("move", "copy"):
                     nxt = c.args[0]["place"]["l"]
+                    nat = (sbb, len(b.stmts(sbb)))
         if nxt is None:
             return None
         l = nxt
+        at = nat
     return None
 
 
